@@ -99,6 +99,7 @@ type Obligation struct {
 	Ms     int64
 	Model  string
 	Canary bool
+	Short  bool // short solver budget (obligations recorded as known findings)
 }
 
 type Unit struct {
